@@ -365,9 +365,8 @@ impl<'a> Run<'a> {
       Op::Next(i) if nrx > 0 => self.do_recv(idx(*i, nrx), 3, false),
       Op::CloneRx(i) if nrx > 0 && nrx < 3 => {
         let r = idx(*i, nrx);
-        if self.rxm[r].closed || !self.tx_alive() {
-          // cloning a closed receiver, or one whose channel is already gone, yields a dead
-          // receiver: not part of the specified behaviour
+        if self.rxm[r].closed {
+          // what a clone of a closed receiver is, is not specified
           return Ok(());
         }
         let c = match &self.rx[r] {
